@@ -43,14 +43,24 @@ pub struct NetCb {
     pub now: u64,
     pub out: Vec<(Addr, Vec<u8>)>,
     pub random_calls: usize,
+    /// the address the current call concerns and the draws made for it so far:
+    /// random values differ per address and per draw, and the per-address
+    /// reference connection is given the same sequence
+    pub cur: Addr,
+    pub drawn: u8,
+}
+
+fn random_for(addr: Addr, k: u8) -> [u8; 4] {
+    [RANDOM_NET[0], RANDOM_NET[1], RANDOM_NET[2] ^ (addr + 1), RANDOM_NET[3].wrapping_add(k.wrapping_mul(17))]
 }
 
 impl net::Callback<Addr> for NetCb {
     type Error = Infallible;
     fn secure_random(&mut self, buffer: &mut [u8]) {
+        let v = random_for(self.cur, self.drawn.wrapping_add(self.random_calls as u8));
         self.random_calls += 1;
         for (i, b) in buffer.iter_mut().enumerate() {
-            *b = RANDOM_NET[i % 4];
+            *b = v[i % 4];
         }
     }
     fn send(&mut self, addr: Addr, data: &[u8]) -> Result<(), Infallible> {
@@ -183,6 +193,10 @@ pub struct NSt {
     pub b: NBudgets,
     pub nserial: [u8; 4],
     pub rserial: [u8; 4],
+    /// random draws made on behalf of each address (by the Net and, in step, by its reference)
+    pub draws: [u8; 4],
+    /// draws made in the current (half-)step by the Net / by the reference (transient)
+    pub step_draws: [u8; 2],
     pub path: Option<Arc<PathNode>>,
     pub depth: u16,
     pub bad: bool,
@@ -203,6 +217,8 @@ impl Clone for NSt {
             b: self.b.clone(),
             nserial: self.nserial,
             rserial: self.rserial,
+            draws: self.draws,
+            step_draws: [0, 0],
             path: self.path.clone(),
             depth: self.depth,
             bad: self.bad,
@@ -219,6 +235,7 @@ impl Hash for NSt {
         self.b.hash(h);
         self.nserial.hash(h);
         self.rserial.hash(h);
+        self.draws.hash(h);
         self.bad.hash(h);
     }
 }
@@ -231,6 +248,7 @@ impl PartialEq for NSt {
             && self.b == o.b
             && self.nserial == o.nserial
             && self.rserial == o.rserial
+            && self.draws == o.draws
             && self.bad == o.bad
     }
 }
@@ -310,6 +328,8 @@ impl NetM {
             },
             nserial: [0; 4],
             rserial: [0; 4],
+            draws: [0; 4],
+            step_draws: [0, 0],
             path: None,
             depth: 0,
             bad: false,
@@ -367,9 +387,13 @@ impl NetM {
     ) -> (Vec<Ev>, Vec<(Addr, Vec<u8>)>) {
         let mut e = s.refs[&a].vclone();
         let mut cb = Cb::new(s.now, RANDOM_NET);
+        // the reference draws the same values the Net draws for this address in this step
+        let k0 = s.draws[a as usize];
+        cb.random = (0..8u8).map(|i| random_for(a, k0.wrapping_add(i))).collect();
         let mut ev = Vec::new();
         f(&mut e, &mut cb, &mut ev);
         s.refs.insert(a, Arc::new(e));
+        s.step_draws[1] = s.step_draws[1].max(cb.random_calls as u8);
         (ev, cb.out.into_iter().map(|d| (a, d)).collect())
     }
 
@@ -485,6 +509,16 @@ impl NetM {
             Ok(f) => f,
             Err(p) => Some((panic_sig(&p), format!("panic: {}", p))),
         };
+        if let NAct::ToNet(..) | NAct::NetConnect(_) | NAct::NetSend(..) | NAct::NetFlush(_) | NAct::NetDisconnect(_) = act {
+            // the address of the (last) call of this step
+            let a = match act {
+                NAct::NetConnect(a) | NAct::NetSend(a, _) | NAct::NetFlush(a) | NAct::NetDisconnect(a) => Some(a),
+                _ => None,
+            };
+            if let Some(a) = a {
+                Self::commit_draws(&mut s, a);
+            }
+        }
         let fail = fail.or_else(|| self.compare_state(&s));
         if let Some((sig, detail)) = fail {
             if self.violation(last, Some(act), &sig, &detail) {
@@ -499,6 +533,7 @@ impl NetM {
     fn net_call(
         &self,
         s: &mut NSt,
+        addr: Addr,
         f: impl FnOnce(&mut Net<Addr>, &mut NetCb) -> Vec<OwnedEvent>,
     ) -> (Vec<OwnedEvent>, Vec<(Addr, Vec<u8>)>) {
         let mut n = s.net.verif_clone();
@@ -506,8 +541,11 @@ impl NetM {
             now: s.now,
             out: Vec::new(),
             random_calls: 0,
+            cur: addr,
+            drawn: s.draws[addr as usize],
         };
         let ev = f(&mut n, &mut cb);
+        s.step_draws[0] = s.step_draws[0].max(cb.random_calls as u8);
         s.view = Arc::new(n.verif_view(Timestamp::from_usecs_since_epoch(s.now)));
         s.net = Arc::new(n);
         for (a, d) in &cb.out {
@@ -516,6 +554,14 @@ impl NetM {
             }
         }
         (ev, cb.out)
+    }
+
+    /// After the Net and its reference have both handled one call for address
+    /// `a`: advance that address's draw counter.
+    fn commit_draws(s: &mut NSt, a: Addr) {
+        let k = s.step_draws[0].max(s.step_draws[1]);
+        s.draws[a as usize] = s.draws[a as usize].wrapping_add(k);
+        s.step_draws = [0, 0];
     }
 
     fn feed_net(n: &mut Net<Addr>, cb: &mut NetCb, addr: Addr, data: &[u8]) -> Vec<OwnedEvent> {
@@ -643,7 +689,7 @@ impl NetM {
             }
             NAct::ToNet(i, policy) => {
                 let (a, d) = s.to_net.remove(i as usize);
-                let (evs, out) = self.net_call(s, |n, cb| Self::feed_net(n, cb, a, &d));
+                let (evs, out) = self.net_call(s, a, |n, cb| Self::feed_net(n, cb, a, &d));
                 let had_peer = s.refs.contains_key(&a);
                 // reference
                 let (exp_ev, exp_out): (Vec<(Addr, Ev)>, Vec<(Addr, Vec<u8>)>);
@@ -688,6 +734,7 @@ impl NetM {
                         _ => 0,
                     };
                 }
+                Self::commit_draws(s, a);
                 if let Some(f) = self.expect_same("feed", got_ev.clone(), exp_ev, out, exp_out, true) {
                     return Some(f);
                 }
@@ -701,7 +748,7 @@ impl NetM {
                     let was_token = d == CONNECT_TOKEN;
                     match policy {
                         Policy::Accept => {
-                            let (_, out) = self.net_call(s, |n, cb| {
+                            let (_, out) = self.net_call(s, a, |n, cb| {
                                 match n.accept(cb, pid) {
                                     Ok(()) => {}
                                     Err(e) => match e {},
@@ -713,10 +760,11 @@ impl NetM {
                                 Ep::feed(e, cb, if was_token { CONNECT_TOKEN } else { CONNECT_PLAIN }, ev, &mut w)
                             });
                             assert!(ev.is_empty());
+                            Self::commit_draws(s, a);
                             return self.expect_same("accept", vec![], vec![], out, exp, true);
                         }
                         Policy::Reject => {
-                            let (_, out) = self.net_call(s, |n, cb| {
+                            let (_, out) = self.net_call(s, a, |n, cb| {
                                 match n.reject(cb, pid, b"full") {
                                     Ok(()) => {}
                                     Err(e) => match e {},
@@ -729,7 +777,7 @@ impl NetM {
                             return self.expect_same("reject", vec![], vec![], out, exp, true);
                         }
                         Policy::Ignore => {
-                            let (_, out) = self.net_call(s, |n, _| {
+                            let (_, out) = self.net_call(s, a, |n, _| {
                                 n.ignore(pid);
                                 vec![]
                             });
@@ -744,7 +792,7 @@ impl NetM {
             NAct::NetConnect(a) => {
                 s.b.net_connects -= 1;
                 let mut pid = 0;
-                let (_, out) = self.net_call(s, |n, cb| {
+                let (_, out) = self.net_call(s, a, |n, cb| {
                     let (p, r) = n.connect(cb, a);
                     match r {
                         Ok(()) => {}
@@ -763,7 +811,7 @@ impl NetM {
                 let data = net_payload(a, s.nserial[a as usize]);
                 s.nserial[a as usize] += 1;
                 let pid = PeerId(s.pids[&a]);
-                let (_, out) = self.net_call(s, |n, cb| {
+                let (_, out) = self.net_call(s, a, |n, cb| {
                     match n.send(cb, net::Chunk { pid, vital, data: &data }) {
                         Ok(()) => {}
                         Err(_) => panic!("Net::send refused a 4-byte chunk"),
@@ -775,7 +823,7 @@ impl NetM {
             }
             NAct::NetFlush(a) => {
                 let pid = PeerId(s.pids[&a]);
-                let (_, out) = self.net_call(s, |n, cb| {
+                let (_, out) = self.net_call(s, a, |n, cb| {
                     match n.flush(cb, pid) {
                         Ok(()) => {}
                         Err(e) => match e {},
@@ -788,7 +836,7 @@ impl NetM {
             NAct::NetDisconnect(a) => {
                 s.b.disconnects -= 1;
                 let pid = PeerId(s.pids[&a]);
-                let (_, out) = self.net_call(s, |n, cb| {
+                let (_, out) = self.net_call(s, a, |n, cb| {
                     match n.disconnect(cb, pid, b"net bye") {
                         Ok(()) => {}
                         Err(e) => match e {},
@@ -801,7 +849,7 @@ impl NetM {
                 self.expect_same("disconnect", vec![], vec![], out, exp, true)
             }
             NAct::NetTick => {
-                let (_, out) = self.net_call(s, |n, cb| {
+                let (_, out) = self.net_call(s, 0, |n, cb| {
                     let errs: Vec<Infallible> = n.tick(cb).collect();
                     assert!(errs.is_empty());
                     vec![]
